@@ -196,3 +196,8 @@ def run(ctx: Ctx, rep: Report, tier: str):
     rep.rule("C03.R12", "what is mirrored is the changed side's content: upload_synced / _create_synced open sync[changed].temp_file only; download_changed re-keys the "
              "temp file to the current content before it looks at it and reuses it only when it exists", 5)
     uploads_read_the_changed_sides_download(ctx, rep, "C03.R12")
+    definition_holds(ctx, rep, "C03.R10", "SyncManager.path_conflict", "the engine's own parking rename / a one-sided rename is read as a two-sided rename conflict: the origin side is written to")
+    from rules.common import walk_dedupe_is_exact
+    rep.rule("C03.R13", "a change that is only seen by a walk (restart with a rejected cursor) is still mirrored: the walk filter drops an event only when hash AND path are "
+             "exactly what the state holds (C14.W6b)", 1)
+    walk_dedupe_is_exact(ctx, rep, "C03.R13")
